@@ -20,7 +20,10 @@ type primInst struct {
 	Fn     *ssa.Function
 }
 
-func (c *Ctx) primInstances() []primInst {
+func (c *Ctx) primInstances() []primInst { return c.primInstancesOpt(false) }
+
+// primInstancesOpt: named=true also returns the instantiations with the named prefix type ZzU8 (C18 only).
+func (c *Ctx) primInstancesOpt(named bool) []primInst {
 	var out []primInst
 	pfx := modPath + "/codec."
 	for full, fn := range c.w.fns {
@@ -50,7 +53,7 @@ func (c *Ctx) primInstances() []primInst {
 		}
 		okArgs := true
 		for _, a := range p.TArgs {
-			if !isBasicName(a) && a != "*ZzObj" {
+			if !isBasicName(a) && a != "*ZzObj" && !(named && a == "ZzU8") {
 				okArgs = false
 			}
 		}
